@@ -1,6 +1,7 @@
 package props
 
 import (
+	"bytes"
 	"encoding/json"
 	"fmt"
 	"os"
@@ -40,6 +41,13 @@ func (c15) MinNontrivial(tier string) int { return tierN(tier, 500, 5000) }
 
 var c15Keys = []string{"a", "b", "c", "srv", "db"}
 
+// marshalDoc renders a tree as a YAML document; TAB characters inside values are written literally (inside the
+// double quotes the encoder puts around such a value) - content of a hand-written document, not indentation.
+func marshalDoc(v any) ([]byte, error) {
+	b, err := yaml.Marshal(v)
+	return bytes.ReplaceAll(b, []byte(`\t`), []byte("\t")), err
+}
+
 func genTree(c *core.Ctx, depth int, scalarsOnly bool) map[string]any {
 	m := map[string]any{}
 	n := 1 + c.Rng.Intn(3)
@@ -57,6 +65,8 @@ func genTree(c *core.Ctx, depth int, scalarsOnly bool) map[string]any {
 			m[k] = c.Rng.Intn(2) == 0
 		case x == 5 && !scalarsOnly:
 			m[k] = []any{c.Rng.Intn(9), c.Rng.Intn(9)}
+		case x == 6 && !scalarsOnly && c.Rng.Intn(3) == 0:
+			m[k] = []string{"id\tname", "\tindented", "a\t\tb "}[c.Rng.Intn(3)] + fmt.Sprint(c.Rng.Intn(100)) // TAB-separated content
 		case x == 6 && c.Rng.Intn(3) == 0:
 			m[k] = "" // an empty value is a value: it overrides (clears) what an earlier source supplied
 		default:
@@ -247,6 +257,9 @@ func (p c15) Run(c *core.Ctx) {
 		s := &c15Source{label: fmt.Sprintf("s%d", i)}
 		kinds := []string{"raw", "raw", "args", "ordered", "priority", "file"}
 		s.kind = kinds[c.Rng.Intn(len(kinds))]
+		if c.Rng.Intn(10) == 0 {
+			s.kind = "value" // a stateless loader registered by value (its value is the zero value of its type)
+		}
 		if s.kind == "file" && haveFile {
 			s.kind = "raw"
 		}
@@ -261,12 +274,18 @@ func (p c15) Run(c *core.Ctx) {
 			s.tree["zafter"] = "after-the-long-line"
 		}
 		switch s.kind {
+		case "value":
+			s.ld = []configure.Loader{world.BuiltinDefaults{}, world.TenantLoader{}, world.LevelLoader(0), world.TenantLoader{Tenant: "t1"}}[c.Rng.Intn(4)]
+			doc, _ := s.ld.LoadConfig()
+			s.tree = map[string]any{}
+			yaml.Unmarshal(doc, &s.tree)
+			c.Count("stateless_loaders_registered_by_value", 1)
 		case "raw":
-			b, _ := yaml.Marshal(s.tree)
+			b, _ := marshalDoc(s.tree)
 			s.ld = loader.NewRawLoader(b)
 		case "file":
 			haveFile = true
-			b, _ := yaml.Marshal(s.tree)
+			b, _ := marshalDoc(s.tree)
 			f := filepath.Join(tmpDir, fmt.Sprintf("c15-%d-%d-%d.yaml", os.Getpid(), c.Index, i))
 			if c.Rng.Intn(4) == 0 {
 				// the file is a pipe (--config <(render), /dev/stdin, /proc/self/fd/N): readable, but its
@@ -312,7 +331,7 @@ func (p c15) Run(c *core.Ctx) {
 				}
 			}
 			usedOrd[fmt.Sprint(s.kind, s.ord)] = true
-			b, _ := yaml.Marshal(s.tree)
+			b, _ := marshalDoc(s.tree)
 			cl := 1
 			if s.kind == "priority" {
 				cl = 2
@@ -611,7 +630,7 @@ func (p c15) reinit(c *core.Ctx) {
 			s.kind = "raw"
 		}
 		s.tree = genTree(c, 0, s.kind == "args")
-		b, _ := yaml.Marshal(s.tree)
+		b, _ := marshalDoc(s.tree)
 		if useJSON {
 			b, _ = json.Marshal(s.tree)
 		}
@@ -671,7 +690,7 @@ func (p c15) reinit(c *core.Ctx) {
 			}
 		}
 		usedOrd[fmt.Sprint(late.kind, late.ord)] = true
-		lateDoc, _ = yaml.Marshal(late.tree)
+		lateDoc, _ = marshalDoc(late.tree)
 		if useJSON {
 			lateDoc, _ = json.Marshal(late.tree)
 		}
